@@ -4,6 +4,7 @@ package synchronizer
 import (
 	"context"
 	"fmt"
+	"sync"
 	"time"
 
 	"github.com/relab/hotstuff/core"
@@ -39,7 +40,11 @@ type Synchronizer struct {
 	// we will simply send this timeout again.
 	lastTimeout *hotstuff.TimeoutMsg
 
-	timer oneShotTimer
+	// timerMut protects timer and stopped: the event loop restarts the timer while the
+	// goroutine started by Start stops it when the context ends.
+	timerMut sync.Mutex
+	timer    oneShotTimer
+	stopped  bool // the context passed to Start has ended; no new timer is started
 
 	// bag of collected timeout messages for different views
 	timeouts *timeoutCollector
@@ -142,6 +147,11 @@ func (s *Synchronizer) startTimeoutTimer() {
 	// thus avoiding a data race.
 	view := s.state.View()
 	d := s.duration.Duration()
+	s.timerMut.Lock()
+	defer s.timerMut.Unlock()
+	if s.stopped {
+		return
+	}
 	// It is important that the timer is NOT reused because then the view would be wrong.
 	s.timer = oneShotTimer{time.AfterFunc(d, func() {
 		// The event loop will execute onLocalTimeout for us.
@@ -150,6 +160,8 @@ func (s *Synchronizer) startTimeoutTimer() {
 }
 
 func (s *Synchronizer) stopTimeoutTimer() {
+	s.timerMut.Lock()
+	defer s.timerMut.Unlock()
 	s.timer.Stop()
 }
 
@@ -159,7 +171,10 @@ func (s *Synchronizer) Start(ctx context.Context) {
 
 	go func() {
 		<-ctx.Done()
-		s.stopTimeoutTimer()
+		s.timerMut.Lock()
+		s.stopped = true
+		s.timer.Stop()
+		s.timerMut.Unlock()
 	}()
 
 	// start the initial proposal
